@@ -169,6 +169,9 @@ class Extracted:
         self.gen_lo = self.gen_hi = 0
         self.n_clauses = 0
         self.is_fn = False
+        self.lost = []
+
+TOLERANT = {"on": False}
 
 def extract(repo, spec, contracts, mode, mutate=None):
     """spec: dict(id,file,item,rewrites,block). Returns Extracted."""
@@ -259,16 +262,23 @@ def extract(repo, spec, contracts, mode, mutate=None):
             ins.append((j if s["kind"] == "nested" else j + 1, order, text))
         elif s["kind"] == "loop":
             ls = _loops(body, bo + 1, len(body))
-            if s["n"] > len(ls): raise UnitError(f"lost anchor: {ex.id} has no loop #{s['n']}")
+            if s["n"] > len(ls):
+                if TOLERANT["on"]: ex.lost.append(f"loop #{s['n']}"); continue
+                raise UnitError(f"lost anchor: {ex.id} has no loop #{s['n']}")
             ins.append((ls[s["n"] - 1], order, text))
         else:
             seq = [t.text for t in tokenize(s["anchor"])[0]]
             i = _find_seq(body, bo + 1, len(body), seq, s["n"])
             if i is None:
+                if TOLERANT["on"]: ex.lost.append(f"occurrence {s['n']} of `{s['anchor']}`"); continue
                 raise UnitError(f"lost anchor: {ex.id}: occurrence {s['n']} of `{s['anchor']}`")
             ins.append((i if s["kind"] in ("before", "closure") else i + len(seq), order, text))
     if mode == "canary" and ex.is_fn and not have_sig and spec.get("canary", "1") != "0":
         ins.append((bo, -1, _add_canary("", ex.id)))
+    if ex.lost:
+        # degraded: drop every proof hint of this item (they may mention locals that no longer exist); keep signature clauses
+        keep_kinds = {(bo, o) for o, s2 in enumerate(secs) if s2["kind"] in ("sig",)} | {(0, o) for o, s2 in enumerate(secs) if s2["kind"] == "attr"}
+        ins = [x for x in ins if (x[0], x[1]) in keep_kinds or x[1] == -1]
     ex.n_clauses = sum(len(re.findall(r"^\s*//#\s*\S", s["text"], re.M)) for s in secs)
     ins.sort(key=lambda x: (x[0], x[1]))
     out = []
